@@ -501,12 +501,18 @@ def rule_describer_kind_first(ctx: Ctx) -> RuleResult:
         if fi is None:
             raise AnalysisError(f"AttrSpec: describer of the {side} colour not found")
         cfg = cfg_of(fi)
-        tests = [t for t in cfg.nodes if t.kind == "test" and isinstance(t.ast, ast.Attribute) and t.ast.attr == f"{side}_basic"]
+        # (test, edge on which the side is known NOT to be a basic colour): `if self.x_basic:` -> F, `if not ...:` -> T
+        tests = []
+        for t in cfg.nodes:
+            if t.kind != "test" or not any(isinstance(x, ast.Attribute) and x.attr == f"{side}_basic" for x in ast.walk(t.ast)) or isinstance(t.ast, ast.BoolOp):
+                continue
+            neg = isinstance(t.ast, ast.UnaryOp) and isinstance(t.ast.op, ast.Not)
+            tests.append((t, "T" if neg else "F"))
         rets = [n for n in cfg.nodes if n.kind == "return" and n.ast.value is not None and any(isinstance(x, ast.Call) and isinstance(x.func, ast.Name) and x.func.id.startswith("_color_desc_") for x in ast.walk(n.ast.value))]
         if not rets:
             raise AnalysisError(f"{fi.qualname}: no _color_desc_*() return found")
         for r in rets:
-            ok = any(r not in ExcEngine._reach_without_edge(cfg, t, "F") for t in tests)
+            ok = any(r not in ExcEngine._reach_without_edge(cfg, t, edge) for t, edge in tests)
             rr.inst(f"{side}: {norm(r.ast, 50)}", True, {"describer": short(fi), "return": norm(r.ast, 60), "after_basic_flag_false": ok})
             if not ok:
                 rr.add(finding("ORDER", fi, r.ast, f"`{norm(r.ast, 60)}` can be reached without `self.{side}_basic` having been tested false: a basic colour is described by its palette number ('h3' for brown at 88 colours), which parses back as a high colour - the specification rebuilt from the description is unequal to the original and hashes differently", construct=f"{side}: depth-dependent description before the basic-colour test"))
@@ -605,6 +611,8 @@ from ..mutants import Mut  # noqa: E402
 
 _C = "urwid/display/common.py"
 MUTANTS = [
+    Mut("background-describer-depth-first", "urwid/display/common.py", "AttrSpec.background", "        if self.background_basic:\n            return _BASIC_COLORS[self.background_number]\n        if self.__value & _HIGH_88_COLOR:\n            return _color_desc_88(self.background_number)\n", "        if self.__value & _HIGH_88_COLOR:\n            return _color_desc_88(self.background_number)\n        if self.background_basic:\n            return _BASIC_COLORS[self.background_number]\n", "ORDER|display.common.AttrSpec.background|background: depth-dependent description before the basic-colour test"),
+    Mut("twin-foreground-basic-test-spelled-bool", "urwid/display/common.py", "AttrSpec._foreground_color", "        if self.foreground_basic:\n            return _BASIC_COLORS", "        if bool(self.foreground_basic):\n            return _BASIC_COLORS", twin=True),
     Mut("repr-omits-truecolor-depth", "urwid/display/common.py", "AttrSpec.__repr__", "if self.colors in {88, 2**24}:", "if self.colors in {88}:", "SIB|display.common.AttrSpec.__repr__|repr omits colors=16777216"),
     Mut("twin-repr-depth-not-in-basic", "urwid/display/common.py", "AttrSpec.__repr__", "if self.colors in {88, 2**24}:", "if self.colors not in {1, 16, 256}:", twin=True),
     Mut("fold-88-low-digits", "urwid/display/common.py", "_parse_color_88", "            desc = desc[0:2] + desc[3] + desc[5]", "            desc = desc[::2]", "TAINT|display.common._parse_color_88|seven-character fold keeps other positions than 0, 1, 3, 5"),
